@@ -201,9 +201,13 @@ def known_findings(pid):
     if os.path.exists(KNOWN):
         for line in open(KNOWN):
             line = line.strip()
-            if line.startswith('finding:') and ('property=%s ' % pid) in line + ' ':
+            mm = re.search(r'property=([\w,]+)', line)
+            sh = re.search(r'shared=([\w,]+)', line)
+            primary = bool(mm and pid in mm.group(1).split(','))
+            shared = bool(sh and pid in sh.group(1).split(','))
+            if line.startswith('finding:') and (primary or shared):
                 m = re.search(r'obligation=(\S+)', line)
-                out.append({'line': line, 'obligation': m.group(1) if m else None})
+                out.append({'line': line, 'obligation': m.group(1) if m else None, 'shared': shared and not primary})
     return out
 
 
@@ -584,7 +588,8 @@ def check_property(pid, tier, seed, replay_only=None):
         'failed_obligations': [{k: f[k] for k in ('obligation', 'function', 'message', 'clause', 'src')} for f in failures][:20],
         'undecided': undecided[:20],
         'verus_failures_overridden_by_complete_kani_proofs': overridden,
-        'known_findings_reported': [k[0]['line'] for k in kf_printed],
+        'known_findings_reported': [k[0]['line'] for k in kf_printed if not k[0].get('shared')],
+        'hypotheses_from_known_findings_of_other_properties': sorted(set(k[0]['line'][:400] for k in kf_printed if k[0].get('shared'))),
         'explanation': cfg.get('explanation', ''),
         'not_decided_here': cfg.get('not_decided', []),
         'repo': repo_state(),
@@ -602,7 +607,13 @@ def check_property(pid, tier, seed, replay_only=None):
     for k, f in kf_printed:
         if k['line'] not in seen:
             seen.add(k['line'])
-            print('KNOWN-FINDING: property=%s %s' % (pid, k['line'].split(' ', 2)[2] if k['line'].count(' ') >= 2 else k['line']))
+            rest = k['line'].split(' ', 2)[2] if k['line'].count(' ') >= 2 else k['line']
+            if k.get('shared'):
+                # the finding violates ANOTHER property; this property's proof merely shares the code that carries the obligation:
+                # for this property it is an explicit hypothesis, listed in the evidence
+                print('NOTE: shared hypothesis (known finding of %s): %s' % (re.search(r'property=([\w,]+)', k['line']).group(1), rest[:300]))
+            else:
+                print('KNOWN-FINDING: property=%s %s' % (pid, rest))
     for o in overridden:
         print('NOTE: %s' % o)
     for u in undecided:
